@@ -276,6 +276,22 @@ static int L5PH;
 static void l5_emit(const unsigned char *s, size_t n, void *arg) { (void)arg; check_email("L5corpus", s, n); MC_ADD(C_L3, 1); }
 static void l5_shard(long shard, void *arg) { (void)arg; corpus_run(L5PH, shard, l5_emit, NULL); }
 
+/* ---------- L6: every local-part shape x every domain shape (an interaction of two features that are each covered alone) ---------- */
+static const char *const L6DOM[] = { "ok.com", "a", "a.b.", "example.org", "xn--p1ai", "\xd0\xbf.\xd1\x80\xd1\x84", "a..b", "-a.com", "[192.0.2.1]", "[IPv6:2001:db8::1]", "[::1.2.3.4]", "[IPv6:::ffff:192.0.2.128]",
+    "[2001:db8:1:1:1:1:1:1]", "[1.2.3.4", "1.2.3.4]", "[1.2.3.256]", "[IPv6:1:2]", "[0.0.0.0]", "a.museum", "b.zzzzq", "[IPv6:1::2]x", "a@b.com", "localhost", "1.2" };
+#define NL6DOM ((int)(sizeof L6DOM / sizeof L6DOM[0]))
+static void l6_shard(long shard, void *arg) {
+    (void)arg; int b = (int)shard + 1;      /* the byte featured in the local part */
+    unsigned char lp[8][16]; size_t ll[8]; int nlp = 0;
+    #define LP(...) do { const unsigned char t_[] = { __VA_ARGS__ }; memcpy(lp[nlp], t_, sizeof t_); ll[nlp++] = sizeof t_; } while (0)
+    LP('a', (unsigned char)b, 'b'); LP('"', 'a', (unsigned char)b, 'b', '"'); LP('"', 'a', '\\', (unsigned char)b, 'b', '"'); LP((unsigned char)b); LP('a', '.', '"', (unsigned char)b, '"'); LP('"', (unsigned char)b, '"', '.', 'a');
+    LP((unsigned char)b, (unsigned char)b); LP('"', (unsigned char)b, (unsigned char)b, '"');
+    for (int i = 0; i < nlp; i++) for (int d = 0; d < NL6DOM; d++) {
+        unsigned char t[96]; size_t l = ll[i]; memcpy(t, lp[i], l); t[l++] = '@'; size_t dl = strlen(L6DOM[d]); memcpy(t + l, L6DOM[d], dl); l += dl;
+        check_email("L6cross", t, l); MC_ADD(C_L3, 1);
+    }
+}
+
 static int do_replay(void) {
     mc_replay_t r; if (mc_load_replay(mc_replay, &r)) return 2;
     mc_replay_hit = 0; check_email(r.sub, r.in, (size_t)r.len);
@@ -297,6 +313,7 @@ int main(int argc, char **argv) {
     memset(&L4E, 0, sizeof L4E); L4E.A = SIGLIT; L4E.nA = 7; L4E.N = mc_thorough ? 8 : 7; L4E.k = 2; L4E.fn = l4_cb;
     mc_parallel("L4: all bracket contents over {1 0 a : . IPv6: 25}", mc_enum_shards(&L4E), l4_shard, NULL);
     mc_parallel("L4: dotted quads over 7 octet spellings ^4, plain and as IPv6 tail", 1, l4_quads, NULL);
+    mc_parallel("L6: 8 local-part shapes around every byte 0x01-0xFF x 24 domain shapes", 255, l6_shard, NULL);
     if (corpus_load()) return 2;
     { static const int PH[] = { CP_LONGIDN, CP_ALTDOT, CP_LABELLEN, CP_MAXLIT };
       for (unsigned i = 0; i < 4; i++) { L5PH = PH[i]; char nm5[80]; snprintf(nm5, sizeof nm5, "L5: %.60s", corpus_name(L5PH)); mc_parallel(nm5, corpus_shards(L5PH), l5_shard, NULL); } }
